@@ -10,7 +10,7 @@ import idx_common as I
 
 ID = "C05"
 LEAN_MODULES = ["CatiiProps.C05"]
-USES_TRANSLATOR = ['marginal_diff']   # Gen/DiffGen.lean: one pass of _compute_common_cells_from_marginal_diffs as data (tools/translate_diff.py)
+USES_TRANSLATOR = ['marginal_diff', 'shift_to']   # Gen/DiffGen.lean: one pass of _compute_common_cells_from_marginal_diffs as data (tools/translate_diff.py); Gen/ShiftGen.lean: the re-encoding block of shift_common (tools/translate_shift.py)
 RULE = ("cases of C03 (dyadic stream, every fourth case arbitrary doubles compared within 1e-9 x grand total with the missing "
         "cells exactly; one-, two- and three-axis dims); for every dimension d and every value v in "
         "0..extent plus one value outside the data: d is replaced by a copy shifted to common v (and, separately, "
